@@ -346,6 +346,7 @@ def c15Step (s : St) (line : String) : St × String :=
         | none => "ok " ++ digestFields s.fields
       (s, m ++ " | ok " ++ digestFields s.fields)
     | none => bad
+  | ["unclassified", _] => (s, "ok not-driven")
   | ["methods"] =>
     match allMethods.find? (fun r => r.1 ++ "." ++ r.2.1 == s.key) with
     | some r => (s, "ok " ++ ",".intercalate (sortStrings r.2.2))
